@@ -295,20 +295,20 @@ static int apply(const sym *s)
 }
 
 /* ---------- alphabet ---------- */
-static uint32_t LAM[8];      /* policies use the first 7; the 8th (padding threshold) only occurs as a deviation */
+static uint32_t LAM[16]; static int NLAM = 8;     /* policies use the first 7; the 8th (padding threshold) and the extended lengths of the thorough tier only occur as deviations */
 static int enum_symbols(sym *out)
 {
-	int n = 0, fresh = -1, idle[2] = { -1, -1 }, infl = -1, comp = -1;
+	int n = 0, fresh = -1, idle[2] = { -1, -1 }, infl = -1, infl2 = -1, comp = -1;
 	for (unsigned i = 0; i < K; i++) {
 		int st = M.c[i].st;
 		if ((st == M_FRESH || st == M_COMPLETE) && fresh < 0) fresh = i;
 		if (st == M_COMPLETE && comp < 0) comp = i;
 		if (st == M_IDLE) { if (idle[0] < 0) idle[0] = i; else if (idle[1] < 0) idle[1] = i; }
-		if (st == M_INFLIGHT && infl < 0) infl = i;
+		if (st == M_INFLIGHT) { if (infl < 0) infl = i; else infl2 = i; }
 	}
 	if (M.c[K - 1].st == M_FRESH && comp < 0) { /* a never-used context also rejects UPDATE/LAST as completed */ comp = K - 1; }
 	out[n++] = (sym){ 0, 0, 0, 0, 0 };
-	for (int li = 0; li < 8; li++) {
+	for (int li = 0; li < NLAM; li++) {
 		if (fresh >= 0) { out[n++] = (sym){ 1, fresh, ISAL_HASH_ENTIRE, LAM[li], 0 }; out[n++] = (sym){ 1, fresh, ISAL_HASH_FIRST, LAM[li], 0 }; }
 		for (int k = 0; k < 2; k++) if (idle[k] >= 0) { out[n++] = (sym){ 1, idle[k], ISAL_HASH_UPDATE, LAM[li], 0 }; out[n++] = (sym){ 1, idle[k], ISAL_HASH_LAST, LAM[li], 0 }; }
 	}
@@ -322,6 +322,10 @@ static int enum_symbols(sym *out)
 		out[n++] = (sym){ 2, infl, ISAL_HASH_UPDATE, LAM[1], ISAL_HASH_CTX_ERROR_ALREADY_PROCESSING };
 		out[n++] = (sym){ 2, infl, ISAL_HASH_LAST, 0, ISAL_HASH_CTX_ERROR_ALREADY_PROCESSING };
 		out[n++] = (sym){ 2, infl, 8, LAM[3], ISAL_HASH_CTX_ERROR_INVALID_FLAGS };      /* double error: flags take precedence */
+	}
+	if (infl2 >= 0 && vk_thorough) {   /* the youngest job in flight sits in another lane than the oldest */
+		out[n++] = (sym){ 2, infl2, ISAL_HASH_ENTIRE, LAM[1], ISAL_HASH_CTX_ERROR_ALREADY_PROCESSING };
+		out[n++] = (sym){ 2, infl2, ISAL_HASH_LAST, LAM[3], ISAL_HASH_CTX_ERROR_ALREADY_PROCESSING };
 	}
 	if (comp >= 0) { out[n++] = (sym){ 2, comp, ISAL_HASH_UPDATE, LAM[4], ISAL_HASH_CTX_ERROR_ALREADY_COMPLETED }; out[n++] = (sym){ 2, comp, ISAL_HASH_LAST, LAM[1], ISAL_HASH_CTX_ERROR_ALREADY_COMPLETED }; }
 	return n;
@@ -394,6 +398,7 @@ static struct frame *frames; static int maxdepth = 400;
 static uint64_t abs_states;
 static int use_visited = 1;
 static int only_valid_deviations;
+static int nsub = 1, sub = 0, top_budget;     /* sub-sharding: first deviations (depth, symbol) are dealt round-robin to nsub processes */
 
 /* paired environment (C20): a second image, created under a different hidden-input environment, is driven in
  * lock step through the same transitions; it makes no pruning decisions of its own; only what the API defines
@@ -426,7 +431,7 @@ static int pair_step(const sym *s)
 static void explore(int pol, int depth, int budget)
 {
 	struct frame *fr = &frames[depth];
-	sym pn; sym syms[96];
+	sym pn; sym syms[160];
 	int have_pol;
 	if (depth >= maxdepth - 1) { vk_stat("depth_cap_hits", 1); return; }
 	if (vk_deadline_hit()) { vk_stat("deadline_cut_branches", 1); return; }
@@ -441,6 +446,7 @@ static void explore(int pol, int depth, int budget)
 		else {
 			s = &syms[i];
 			if (have_pol && !memcmp(s, &pn, sizeof *s)) continue;
+			if (nsub > 1 && budget == top_budget && (((unsigned)depth * 2654435761u + (unsigned)i * 40503u) >> 9) % (unsigned)nsub != (unsigned)sub) continue;
 			if (only_valid_deviations && s->kind == 2) continue;
 			nb = budget - 1;
 		}
@@ -487,6 +493,7 @@ static int setup_instance(const struct fam *f)
 	unsigned B = A->block;
 	LAM[0] = 0; LAM[1] = 1; LAM[2] = B - 1; LAM[3] = B; LAM[4] = B + 1; LAM[5] = 2 * B + 3; LAM[6] = 7 * B;
 	LAM[7] = B - (A->ref == REF_SHA512 ? 16 : 8);     /* first length whose padding needs a second block */
+	LAM[8] = LAM[7] - 1; LAM[9] = LAM[7] + 1; LAM[10] = 2 * B - 1; LAM[11] = 2 * B; LAM[12] = 3 * B + 1; LAM[13] = 4 * B;
 	ctx_stride = (A->ctx_size + 63) & ~(size_t)63;
 	/* probe the number of lanes: equal long jobs until one comes back */
 	K = MAXK; L = A->max_lanes;
@@ -540,15 +547,19 @@ static void run_trace(void)
 static void run_explore(void)
 {
 	if (vk_want_trace) { run_trace(); return; }
-	const char *v; int d4 = vk_thorough ? 3 : 2, d8 = vk_thorough ? 2 : 1, d16 = vk_thorough ? 2 : 1;
+	const char *v; int d4 = 2, d8 = vk_thorough ? 2 : 1, d16 = vk_thorough ? 2 : 1;
 	if (vk_opt("d4", &v)) d4 = atoi(v);
 	if (vk_opt("d8", &v)) d8 = atoi(v);
 	if (vk_opt("d16", &v)) d16 = atoi(v);
 	vt_cap = (size_t)1 << (vk_thorough ? 24 : 22);
+	if (vk_opt("vt", &v)) vt_cap = (size_t)1 << atoi(v);
+	int vis_all = vk_opt("visall", &v);
 	vt_key = calloc(vt_cap, 8); vt_bud = calloc(vt_cap, 1);
 	frames = calloc(maxdepth, sizeof *frames);
 	long item = 0;
-	for (unsigned fi = 0; fi < NFAM; fi++) for (int pol = 0; pol < 4; pol++) {
+	if (vk_opt("nsub", &v)) nsub = atoi(v);
+	if (nsub < 1) nsub = 1;
+	for (unsigned fi = 0; fi < NFAM; fi++) for (int pol = 0; pol < 4; pol++) for (sub = 0; sub < nsub; sub++) {
 		if (vk_want_trace && pol != 0 && pol != 2) continue;
 		char nm[64]; snprintf(nm, sizeof nm, "%s_%s", algs[fams[fi].alg].name, fams[fi].name);
 		if (vk_only && strcmp(vk_only, nm) && strcmp(vk_only, algs[fams[fi].alg].name)) continue;
@@ -558,12 +569,15 @@ static void run_explore(void)
 		if (pair_mode) { free(curB); free(tmpA); curB = malloc(arena_size); tmpA = malloc(arena_size); }
 		free(pre_img); pre_img = malloc(arena_size);
 		int dmax = L <= 4 ? d4 : L <= 8 ? d8 : d16;
+		NLAM = vk_thorough && L <= 4 && !vk_opt("lam8", &v) ? 14 : 8;
 		if (vk_want_trace) dmax = 0;
 		if (public_entry && dmax > 1) dmax = 1;
 		for (int d = 0; d <= dmax; d++) {
+			if (d == 0 && sub != 0) continue;     /* nothing to split in the deviation-free run */
+			top_budget = d;
 			/* iterate the bound: 0, 1, 2 ... ; each bound re-explores from scratch with a fresh table */
 			memset(vt_key, 0, vt_cap * 8); memset(vt_bud, 0, vt_cap); vt_n = 0;
-			use_visited = d <= 2;
+			use_visited = d <= 2 || vis_all;
 			if (pair_mode) { env_prefill = 0x00; vk_call_poison = 0xfedcba9876543210ULL; fresh_system(); memcpy(curB, s_arena.rw + arena_off, arena_size); env_prefill = 0xd7; vk_call_poison = 0x1111111111111111ULL; }
 			fresh_system();
 			if (faulted) break;
